@@ -34,7 +34,9 @@ Inductive instr :=
 | IPopUntilMark (id : nat)             (* PopUntilStackmarkInstr *)
 | IClearMark (id : nat)                (* ClearStackmarkInstr *)
 | IBreak (id k : nat)                  (* BreakInstr{loop, scopesToPop} *)
-| ICont (id k : nat).                  (* ContinueInstr{loop, scopesToPop} *)
+| ICont (id k : nat)                   (* ContinueInstr{loop, scopesToPop} *)
+| IAddFuncScope                        (* AddFuncScopeInstr (function entry) *)
+| IReturn.                             (* ReturnInstr{nil} *)
 
 (* what the generator knows while compiling: gen.scopes and the loop stack of the compile unit
    (label, loop number, scopeDepth+1) *)
@@ -301,6 +303,9 @@ Definition step (n : nat) (code : list instr) (s : vmstate) : stepres :=
         else Stuck
       | None => Abort (SErr ELoop) (st s)
       end
+    | IAddFuncScope =>
+      let '(f, st') := push_frame (st s) in Next (mkVm (S (pc s)) (stk s) (f :: scopes s) st')
+    | IReturn => Halt
     | ICont id k =>
       match find_loop code id O with
       | Some (pos, _, co) =>
@@ -326,3 +331,11 @@ Fixpoint run (n : nat) (code : list instr) (k : nat) (s : vmstate) : res value *
   end.
 
 Definition top : cctx := mkCctx O [].
+
+(* generator.go:buildSexpFun for a function without `& rest`, whose body has no self tail call:
+   AddFuncScope; PopStackPutEnv for the last formal first; the body; RemoveScope; Return.
+   Inside the body gen.scopes starts at 0 and the loop stack of the compile unit is empty
+   (F2 bodies do not sit inside a loop). *)
+Definition fun_code (ps : list ident) (body : list expr) : list instr :=
+  [IAddFuncScope] ++ map IPutEnv (rev ps) ++ gen_begin gen nloops top O body ++ [IRemoveScope; IReturn].
+
